@@ -166,7 +166,7 @@ def _plain(x):
     import numpy
     if isinstance(x, numpy.ndarray):
         return ("ndarray", x.dtype.str, x.tolist())
-    if isinstance(x, dict):
+    if isinstance(x, (dict, types.MappingProxyType)):
         return {k: _plain(v) for k, v in x.items()}
     if isinstance(x, (list, tuple)):
         return type(x)(_plain(v) for v in x)
@@ -381,7 +381,7 @@ def run_agent_arm(sc, ctx):
                         ref.remove(order[act["k"] % len(order)])
                 w.apply_real(act)
                 apply_ref(pop, act)
-        before = {cid: copy.deepcopy(c.records) for cid, c in cols.items()}
+        before = {cid: _plain(c.records) for cid, c in cols.items()}       # (a plain-data snapshot: records may hold objects deepcopy refuses)
         changed_in_step = []
         collected_in_step = False
         dropped_now = set()
